@@ -219,6 +219,9 @@ pub struct Ev<'p> {
     depth: usize,
     /// Number of schema-valued `rec` / recursive declarations met (information).
     pub recursion_points: usize,
+    /// Collisions that the property texts name explicitly and that the program contains
+    /// (they qualify the signature of a difference).
+    pub notes: Vec<&'static str>,
 }
 
 fn module_index(p: &Program, from: usize, path: &str) -> Option<usize> {
@@ -254,6 +257,7 @@ impl<'p> Ev<'p> {
             in_progress: HashMap::new(),
             depth: 0,
             recursion_points: 0,
+            notes: Vec::new(),
         }
     }
 
@@ -385,11 +389,19 @@ impl<'p> Ev<'p> {
             if has_use_ann {
                 return unspec("use-site annotation on a @reference");
             }
-            let bare = name.trim_start_matches('@').to_owned();
-            match self.named_from.get(&bare) {
-                Some(m) if *m != module => {
-                    return unspec("the same @name is declared in two modules")
+            let mut bare = name.trim_start_matches('@').to_owned();
+            if let Some(m) = self.named_from.get(&bare) {
+                if *m != module {
+                    // Two different declarations cannot share one component: whatever the
+                    // compiler does (reject, rename), a use must keep denoting its own
+                    // declaration. The reference keeps them apart under a distinct name.
+                    if !self.notes.contains(&"the same @name declared in two modules") {
+                        self.notes.push("the same @name declared in two modules");
+                    }
+                    bare = format!("{bare} (declared in {})", self.prog.modules[module].name);
                 }
+            }
+            match self.named_from.get(&bare) {
                 Some(_) => return Ok((Val::Named(bare), ann)),
                 None => {}
             }
@@ -1135,11 +1147,25 @@ impl<'p> Ev<'p> {
                 let (v, _) = self.eval(e, &env, Mapping::new())?;
                 let r = self.to_relation(&v)?;
                 let key = Self::path_key(&r.uri);
-                if doc.paths.iter().any(|(k, _)| *k == key) {
-                    return unspec("the same path in two resources");
-                }
                 let pi = self.path_item(&r)?;
-                doc.paths.push((key, pi));
+                if let Some(pos) = doc.paths.iter().position(|(k, _)| *k == key) {
+                    // One path item per path: the operations of both resources belong to it.
+                    if !self.notes.contains(&"the same path in two resources") {
+                        self.notes.push("the same path in two resources");
+                    }
+                    let prev = &mut doc.paths[pos].1;
+                    if prev.params != pi.params {
+                        return unspec("the same path in two resources with different path-level parameters");
+                    }
+                    for (m, op) in pi.ops {
+                        if prev.ops.contains_key(&m) {
+                            return unspec("the same method of the same path in two resources");
+                        }
+                        prev.ops.insert(m, op);
+                    }
+                } else {
+                    doc.paths.push((key, pi));
+                }
             }
         }
         for (n, s) in self.named.iter() {
@@ -1153,8 +1179,18 @@ impl<'p> Ev<'p> {
                 None => return stuck("recursion point without a value"),
             }
         }
+        NOTES.with(|n| *n.borrow_mut() = self.notes.clone());
         Ok((doc, self.recursion_points))
     }
+}
+
+thread_local! {
+    static NOTES: std::cell::RefCell<Vec<&'static str>> = const { std::cell::RefCell::new(Vec::new()) };
+}
+
+/// Collisions met by the last successful `meaning` call on this thread.
+pub fn last_notes() -> Vec<&'static str> {
+    NOTES.with(|n| n.borrow().clone())
 }
 
 fn val_name(v: &Val) -> &'static str {
@@ -1180,6 +1216,7 @@ fn val_name(v: &Val) -> &'static str {
 
 /// The reference meaning of a program.
 pub fn meaning(p: &Program) -> Result<(Doc, usize), Stop> {
+    NOTES.with(|n| n.borrow_mut().clear());
     Ev::new(p).program()
 }
 
